@@ -213,8 +213,13 @@ class UnitRegistry:
 
         if hasattr(base_value, "in_base"):
             new_dimensions = base_value.units.dimensions
-            base_value = base_value.in_base("mks")
-            base_value = base_value.value
+            in_mks = base_value.in_base("mks")
+            if in_mks.units.dimensions != new_dimensions:
+                # a Gaussian electromagnetic unit was swapped for its SI counterpart,
+                # which has other dimensions: keep the quantity's own size
+                base_value = base_value.value * base_value.units.base_value
+            else:
+                base_value = in_mks.value
         else:
             new_dimensions = self.lut[symbol][1]
 
